@@ -22,6 +22,10 @@ type stream struct {
 	ctr  uint64
 	buf  []byte
 	used uint64
+	// forced answers for the next reads of exactly 8 bytes (how math/rand on top
+	// of csrand draws one integer): lets a harness steer a length the code under
+	// test draws at random to its extremes
+	force8 [][8]byte
 }
 
 var s = &stream{orig: crand.Reader}
@@ -34,6 +38,11 @@ func Reader() io.Reader { return s }
 func (r *stream) Read(p []byte) (int, error) {
 	r.mu.Lock()
 	defer r.mu.Unlock()
+	if len(p) == 8 && len(r.force8) > 0 {
+		copy(p, r.force8[0][:])
+		r.force8 = r.force8[1:]
+		return 8, nil
+	}
 	if !r.det {
 		return r.orig.Read(p)
 	}
@@ -66,12 +75,14 @@ func Seed(k uint64) {
 	s.ctr = 0
 	s.buf = nil
 	s.used = 0
+	s.force8 = nil
 }
 
 // Real switches back to the operating system source.
 func Real() {
 	s.mu.Lock()
 	s.det = false
+	s.force8 = nil
 	s.mu.Unlock()
 }
 
@@ -95,4 +106,22 @@ func Bytes(k uint64, n int) []byte {
 		out = append(out, sum[:]...)
 	}
 	return out[:n]
+}
+
+// ForceIntn makes the next 8-byte read yield the bytes for which
+// math/rand.(*Rand).Intn(n) over a csrand-style source (big-endian uint64, top
+// bit cleared) returns k, for n < 2^31.  Several calls queue up.
+func ForceIntn(k int) {
+	var b [8]byte
+	binary.BigEndian.PutUint64(b[:], uint64(k)<<32)
+	s.mu.Lock()
+	s.force8 = append(s.force8, b)
+	s.mu.Unlock()
+}
+
+// ClearForced drops queued forced answers.
+func ClearForced() {
+	s.mu.Lock()
+	s.force8 = nil
+	s.mu.Unlock()
 }
